@@ -43,6 +43,7 @@ type Violation struct {
 	Params  map[string]int    `json:"params,omitempty"`
 	Native  string            `json:"native_confirmed,omitempty"`
 	Sched   []string          `json:"schedule,omitempty"`
+	Preempt int               `json:"preempt"`
 }
 
 // runAbort ends a run immediately (host panic that bypasses target recover).
@@ -537,7 +538,7 @@ func (i *interpreter) constrain(c value) {
 }
 
 func (i *interpreter) violation(kind, label, detail string, extra *smt.Term) {
-	v := &Violation{Harness: i.harness, Label: label, Kind: kind, Detail: detail, Params: i.opts.Params}
+	v := &Violation{Harness: i.harness, Label: label, Kind: kind, Detail: detail, Params: i.opts.Params, Preempt: i.opts.Preempt}
 	v.Trace = append([]Decision{}, i.trace...)
 	v.Sched = append([]string{}, i.schedLog...)
 	if i.replayModel != nil {
